@@ -15,8 +15,12 @@ TIER = os.environ.get("VERIF_TIER", "quick")
 rng = random.Random(SEED)
 
 
+_ALL = []
+
+
 class Component:
     def __init__(self, name, bound):
+        _ALL.append(self)
         self.name, self.bound = name, bound
         self.cases = 0
         self.nontrivial = set()
@@ -31,6 +35,11 @@ class Component:
             self.samples.append(sample)
         if not ok and len(self.violations) < 5:
             self.violations.append(witness or {"case": key})
+        if len(self.violations) >= 3:
+            # enough witnesses: stop exploring (keeps a non-terminating mutant from costing one time-out per case)
+            emit(_ALL)
+            sys.stdout.flush()
+            os._exit(0)
 
     def result(self):
         return {"name": self.name, "bound": self.bound, "cases": self.cases, "distinct_nontrivial": len(self.nontrivial),
